@@ -317,6 +317,11 @@ func keyIDSection(x *h.X) {
 		if sb := stepBytes(e.tp.Since(m0), 0); sb != nil {
 			raws = append(raws, sb)
 		}
+		// refused operations on the live primary must not release its id for later draws
+		if km.SetPrimary(id0) == nil {
+			km.Delete(id0)
+			km.Disable(id0)
+		}
 		for round := 0; round < 3 && len(raws) > 0; round++ {
 			m := e.tp.Mark()
 			for j := 0; j < k; j++ {
